@@ -1,19 +1,20 @@
 #!/bin/bash
-# usage: seedverify.sh <prop> <demo-kind test|example> <crate>   — re-verify an agent's seed inside its worktree /tmp/wt/<prop>
-p=$1; kind=$2; crate=${3:-vaporetto}
+# usage: seedverify.sh <prop> <test|example> [crate] [features]   — re-verify an agent's seed inside its worktree /tmp/wt/<prop>
+p=$1; kind=$2; crate=${3:-vaporetto}; feats=${4:-}
 cd /tmp/wt/$p || exit 9
-export CARGO_TARGET_DIR=/tmp/wt/$p/target CARGO_NET_OFFLINE=true
+export CARGO_TARGET_DIR=/tmp/wt/$p/target CARGO_NET_OFFLINE=true RUST_BACKTRACE=0
+F=""; [ -n "$feats" ] && F="--features $feats"
 echo "suite with change: $(cargo test --workspace --offline 2>&1 | grep 'test result' | awk '{p+=$4; f+=$6} END {print p" passed "f" failed"}')"
 if [ "$kind" = test ]; then
   mkdir -p $crate/tests && cp .seed/demo.rs $crate/tests/seed_demo.rs
-  cargo test -p $crate --offline --test seed_demo > /tmp/sv_with.txt 2>&1; echo "demo with change exit=$?"
+  cargo test -p $crate $F --offline --test seed_demo -- --test-threads=1 > /tmp/sv_with.txt 2>&1; echo "demo with change exit=$?"
   git apply -R .seed/patch.diff
-  cargo test -p $crate --offline --test seed_demo > /tmp/sv_without.txt 2>&1; echo "demo unchanged exit=$?"
+  cargo test -p $crate $F --offline --test seed_demo -- --test-threads=1 > /tmp/sv_without.txt 2>&1; echo "demo unchanged exit=$?"
   git apply .seed/patch.diff; rm -rf $crate/tests
 else
   mkdir -p $crate/examples && cp .seed/demo.rs $crate/examples/seed_demo.rs
-  cargo run --offline -q -p $crate --example seed_demo > /tmp/sv_with.txt 2>&1; echo "demo with change exit=$?"
+  cargo run --offline -q -p $crate $F --example seed_demo > /tmp/sv_with.txt 2>&1; echo "demo with change exit=$?"
   git apply -R .seed/patch.diff
-  cargo run --offline -q -p $crate --example seed_demo > /tmp/sv_without.txt 2>&1; echo "demo unchanged exit=$?"
+  cargo run --offline -q -p $crate $F --example seed_demo > /tmp/sv_without.txt 2>&1; echo "demo unchanged exit=$?"
   git apply .seed/patch.diff; rm -rf $crate/examples
 fi
